@@ -64,6 +64,10 @@ func c02Token(tok string, c c03Cfg) string {
 		return a(`extends "l"`)
 	case "IMPORT":
 		return a(`import "i"`)
+	case "EXTENDS_BADSTR":
+		return a(`extends "..\layouts\qmain.jet"`)
+	case "IMPORT_BADSTR":
+		return a(`import "a\q"`)
 	case "INCLUDE":
 		return a(`include "i"`)
 	case "RETURN":
